@@ -430,7 +430,7 @@ func generateTables(source *syntax.Model, out *grammar.Grammar, opts genOptions,
 	// The very first action is a no-op.
 	parser.Actions = append(parser.Actions, grammar.SemanticAction{})
 	var rules []*grammar.Rule
-	midrule := newCommandExtractor(source, len(out.Syms))
+	midrule := newCommandExtractor(source, out.Syms)
 	for self, nt := range source.Nonterms {
 		if nt.Value.Kind == syntax.Lookahead {
 			la := lalr.Lookahead{
@@ -707,6 +707,7 @@ func addTypes(vars *grammar.ActionVars, syms []grammar.Symbol) {
 type commandExtractor struct {
 	baseSyms  int
 	takenName map[string]bool
+	takenID   map[string]bool
 	index     map[commandKey]lalr.Sym
 	prev      *syntax.Nonterm
 	counter   int
@@ -723,7 +724,11 @@ type commandKey struct {
 	varsDigest string
 }
 
-func newCommandExtractor(m *syntax.Model, baseSyms int) *commandExtractor {
+func newCommandExtractor(m *syntax.Model, syms []grammar.Symbol) *commandExtractor {
+	ids := make(map[string]bool)
+	for _, sym := range syms {
+		ids[sym.ID] = true
+	}
 	taken := make(map[string]bool)
 	for _, t := range m.Terminals {
 		taken[t.Name] = true
@@ -734,7 +739,7 @@ func newCommandExtractor(m *syntax.Model, baseSyms int) *commandExtractor {
 	for _, nt := range m.Nonterms {
 		taken[nt.Name] = true
 	}
-	return &commandExtractor{takenName: taken, index: make(map[commandKey]lalr.Sym), baseSyms: baseSyms}
+	return &commandExtractor{takenName: taken, takenID: ids, index: make(map[commandKey]lalr.Sym), baseSyms: len(syms)}
 }
 
 func (e *commandExtractor) extract(n *syntax.Nonterm, command string, vars *grammar.ActionVars, cmdOrigin status.SourceNode) lalr.Sym {
@@ -753,11 +758,12 @@ func (e *commandExtractor) extract(n *syntax.Nonterm, command string, vars *gram
 	for {
 		e.counter++
 		name = fmt.Sprintf("%s$%v", n.Name, e.counter)
-		if _, ok := e.takenName[name]; !ok {
+		if !e.takenName[name] && !e.takenID[ident.Produce(name, ident.CamelCase)] {
 			break
 		}
 	}
 	e.takenName[name] = true
+	e.takenID[ident.Produce(name, ident.CamelCase)] = true
 	var args *syntax.CmdArgs
 	if vars != nil {
 		args = new(syntax.CmdArgs)
